@@ -5,6 +5,7 @@ import (
 	"go/ast"
 	"go/token"
 	"go/types"
+	"strings"
 
 	"golang.org/x/tools/go/ssa"
 )
@@ -446,6 +447,9 @@ func (t *FnTrans) sliceInstr(x *ssa.Slice, st *HeapState, reach string) {
 		s, ok := t.toIdx(t.val(v))
 		if !ok {
 			return t.declare(t.fresh("sl"), t.mode.idxSort())
+		}
+		if !strings.Contains(s, " ") || len(s) < 200 {
+			t.idxTerms[s] = true // slice bounds are natural instantiation points
 		}
 		return s
 	}
